@@ -179,7 +179,7 @@ func cmdCheck(args []string) int {
 		}
 		hcfg := cfg
 		hcfg.Tier = hTier
-		lim := sym.Limits{MaxWitnesses: 2 + 3*hTier}
+		lim := sym.Limits{MaxWitnesses: 2 + 3*hTier, MaxViolations: 8 + 56*hTier}
 		secs := h.QuickSecs
 		if tier == 1 {
 			secs = h.ThoroughSecs
